@@ -13,7 +13,9 @@ LEVEL = "exploration"
 TECHNIQUE = "state-equality + lock-step differential monitor: original and reloaded sketch (class loader / module load(), shared_memory off / on) are compared on every documented parameter, array and query, then driven by the same further operations (log types under identical draws) through save->load->continue chains"
 RULE = ("case = (class, configuration incl. width/depth 1, non-default max_count/num_reserved/phi, seeds >= 2^63; random history; loader "
         "variant; chain depth <= 4; continuation operations); non-trivial = the saved sketch was non-empty and the continuation changed "
-        "it again; distinct = by case digest")
+        "it again; distinct = by case digest; also: a quarter of all saves are followed by 'another sketch overwrites the file, this sketch "
+        "saves again unchanged' before the load; dotted file names sharing a stem; 4 threads saving 4 sketches into one directory at once "
+        "(6-20 rounds per class)")
 ASSUMPTIONS = ["log sketches: draws are equalised by copying rand_nums/rand_ptr and re-seeding Numba's generator before each side's step",
                "n_records is set through the documented n_added_records attribute (as helpers.parallel_add does)"]
 LEVEL_TEXT = ("All five classes x {class loader, module-level load()} x {shared_memory off, on}: class, parameters, arrays, every query, "
